@@ -1,10 +1,15 @@
-(** Property C06 — ParCons: the partition admits an optimal consensus.
-    Status: the guarantee is proved for EVERY ordered partition without back arcs (exchange lemma), and
-    as a verified checker for the partition the library returns (igraph's SCC routine is outside the
-    model: its answer is run through [is_partition_of] and [no_back_arcs] on every check). The truth of
-    the optimality flag and "the consensus respects the partition" are judged per run against the
-    verified brute-force optimum [opt] (theorems C06_opt_lower, C06_opt_attained), not proved for all inputs. *)
-From Corankco Require Import Prelude Scheme Rank KemenySpec CostTable CostTableProof OptTheory Partition PartitionProof.
+(** Property C06 — ParCons: the partition admits an optimal consensus; the optimality flag is truthful.
+    Status: proved on the model.  (1) EVERY ordered partition without back arcs admits an optimal consensus
+    that respects it (exchange lemma).  (2) Decomposition: the concatenation, in the order of the partition, of
+    optimal consensuses of the groups is a global optimum ([C06_assembled_optimal]); the sub-problem handed to
+    the sub-solvers (projection + re-added empty rankings) has the cost table of the whole problem on the
+    group ([C06_sub_problem_table]).  (3) Model of the ParCons assembly with the sub-solvers as parameters:
+    its consensus is a ranking of the universe that respects the partition, the mark is set exactly when no
+    component is delegated to the auxiliary algorithm, and a marked consensus is a global minimiser provided
+    the exact algorithm returns optima of the sub-problems (that is property C05; per run the judge also
+    compares against the verified brute-force optimum).  Outside the model: igraph's SCC routine (its answer
+    is run through [is_partition_of] and [no_back_arcs] on every check) and the ILP solver. *)
+From Corankco Require Import Prelude Scheme Rank KemenySpec CostTable CostTableProof OptTheory Partition PartitionProof ConsistentProof ParConsProof.
 Local Open Scope Z_scope.
 
 Theorem C06_partition_admits_optimum : forall K U P,
@@ -45,3 +50,37 @@ Print Assumptions C06_opt_attained.
 Theorem C06_cost_table_mirror : forall s D, valid s -> mirror (cost_spec s D).
 Proof. exact cost_spec_mirror'. Qed.
 Print Assumptions C06_cost_table_mirror.
+
+(** decomposition along the partition *)
+Theorem C06_assembled_optimal : forall K, mirror K -> forall U P cs,
+  NoDup U -> wfU U P -> no_back K U (bucket_id P) ->
+  Forall2 (fun G cG => wfU G cG /\ score K cG = opt K G) P cs ->
+  wfU U (concat cs) /\ before P (concat cs) /\ score K (concat cs) = opt K U.
+Proof. exact assembled_optimal. Qed.
+Print Assumptions C06_assembled_optimal.
+
+Theorem C06_sub_problem_table : forall s D G x y,
+  In x G -> In y G -> cost_spec s (sub_dataset G D) x y = cost_spec s D x y.
+Proof. exact sub_dataset_table. Qed.
+Print Assumptions C06_sub_problem_table.
+
+(** the mark is set exactly when no component is delegated to the auxiliary algorithm *)
+Theorem C06_flag_iff : forall K bound exact aux P,
+  snd (parcons K bound exact aux P) = true <->
+  forall G, In G P -> can_be_all_tied K G = true \/ (length G <= bound)%nat.
+Proof. exact parcons_flag_iff. Qed.
+Print Assumptions C06_flag_iff.
+
+(** the ParCons consensus respects the partition; a marked consensus is a global minimiser *)
+Theorem C06_parcons : forall s D U P bound exact aux,
+  valid s -> NoDup U ->
+  let K := cost_spec s D in
+  is_partition_of U P = true -> no_back_arcs K P = true ->
+  (forall G, In G P -> wfU G (exact G) /\
+     score (cost_spec s (sub_dataset G D)) (exact G) = opt (cost_spec s (sub_dataset G D)) G) ->
+  (forall G, In G P -> wfU G (aux G)) ->
+  let c := fst (parcons K bound exact aux P) in
+  wfU U c /\ before P c /\
+  (snd (parcons K bound exact aux P) = true -> kemeny_spec s D c = opt K U /\ is_optimal K U c).
+Proof. exact parcons_dataset_spec. Qed.
+Print Assumptions C06_parcons.
